@@ -120,8 +120,9 @@ def rule_keys(ctx, py):
 
 def rule_mand(ctx, py):
     R = "C20.MAND"
+    from .. import pynorm
     for q, key in MANDATORY:
-        f = py.fn(q)
+        f = pynorm.unrolled(py.fn(q))      # a table of (key, reader, mandatory) rows is read row by row
         d = pyfe.params(f)[0]
         found = []
 
